@@ -1,0 +1,45 @@
+//go:build verif
+
+/*
+ Licensed to the Apache Software Foundation (ASF) under one
+ or more contributor license agreements.  See the NOTICE file
+ distributed with this work for additional information
+ regarding copyright ownership.  The ASF licenses this file
+ to you under the Apache License, Version 2.0 (the
+ "License"); you may not use this file except in compliance
+ with the License.  You may obtain a copy of the License at
+
+     http://www.apache.org/licenses/LICENSE-2.0
+
+ Unless required by applicable law or agreed to in writing, software
+ distributed under the License is distributed on an "AS IS" BASIS,
+ WITHOUT WARRANTIES OR CONDITIONS OF ANY KIND, either express or implied.
+ See the License for the specific language governing permissions and
+ limitations under the License.
+*/
+package scheduler
+
+import (
+	"github.com/apache/yunikorn-core/pkg/common"
+	"github.com/apache/yunikorn-core/pkg/common/configs"
+	"github.com/apache/yunikorn-core/pkg/common/security"
+	"github.com/apache/yunikorn-scheduler-interface/lib/go/si"
+)
+
+// Verification hooks (build tag "verif" only) for the placement engine: build one partition from a
+// validated partition config the way updateSchedulerConfig does for a new partition (without starting
+// the partition manager goroutine), resolve the user like handleRMUpdateApplicationEvent does, and
+// reach the placement manager of the partition. Nothing here changes behaviour.
+
+func VerifPlaceNewPartition(conf configs.PartitionConfig, rmID string) (*PartitionContext, error) {
+	conf.Name = common.GetNormalizedPartitionName(conf.Name, rmID)
+	return newPartitionContext(conf, rmID, nil, false)
+}
+
+func VerifPlaceConvertUGI(pc *PartitionContext, ugi *si.UserGroupInformation, forced bool) (security.UserGroup, error) {
+	return pc.convertUGI(ugi, forced)
+}
+
+func VerifPlaceUpdateRules(pc *PartitionContext, rules []configs.PlacementRule) error {
+	return pc.getPlacementManager().UpdateRules(rules)
+}
